@@ -53,6 +53,79 @@ def sig(p):
             str(getattr(p.CurrentUnits, 'value', p.CurrentUnits)), p.json_parameter_type)
 
 
+# ---- the published definitions do not depend on the host the generator (or the simulator) happens to run on ---------------------------------
+def _definitions(obj):
+    out = {}
+    for k, p in obj.ParameterDict.items():
+        out[k] = tuple(repr(getattr(p, a, None)) for a in ('Name', 'DefaultValue', 'Min', 'Max', 'AllowableRange', 'PreferredUnits', 'CurrentUnits', 'Required', 'json_parameter_type'))
+    return out
+
+
+def run_environment(unit):
+    """every parameter source class is constructed in a SYMBOLIC host environment: each look-up of an executable on PATH (shutil.which) and of an
+    environment variable (os.environ.get / os.getenv) answers 'absent' or 'present' as the solver chooses, per call.  The parameter definitions
+    (names, defaults, bounds, units) the class declares - what the schema generator publishes and what the reader enforces - must be the same in
+    every such environment."""
+    import os as _os
+    import shutil as _shutil
+    modn, clsn = unit['module'], unit['cls']
+    cfg = {'harness': 'host-environment', 'class': clsn}
+    log = harness.UnitLog(cfg)
+    base_obj, _, _ = gx.make_source(modn, clsn)
+    base = _definitions(base_obj)
+    real_which, real_getenv, real_env_get = _shutil.which, _os.getenv, _os.environ.get
+    asked = []
+
+    def build(choice):
+        """choice(kind, key) -> bool ('present')"""
+        def which(cmd, *a, **k):
+            return ('/opt/host/bin/' + str(cmd)) if choice('executable on PATH', str(cmd)) else None
+
+        def getenv(key, default=None):
+            if str(key).upper().startswith(('GEOPHIRES', 'TOUGH', 'HIP_RA', 'SUTRA')) or key in asked_env:
+                return ('/opt/host/' + str(key)) if choice('environment variable', str(key)) else default
+            return real_getenv(key, default)
+        asked_env = set()
+        with shim.shadow((_shutil, 'which', which), (_os, 'getenv', getenv)):
+            obj, _, _ = gx.make_source(modn, clsn)
+        return _definitions(obj)
+
+    def fn():
+        n = {'k': 0}
+
+        def choice(kind, key):
+            n['k'] += 1
+            nm = f'{kind} "{key}" present (look-up {n["k"]})'
+            asked.append(nm)
+            return bool(core.symbool(nm))
+        return build(choice)
+
+    def concrete(inp):
+        n = {'k': 0}
+
+        def choice(kind, key):
+            n['k'] += 1
+            return bool(inp.get(f'{kind} "{key}" present (look-up {n["k"]})', False))
+        got = build(choice)
+        diff = {k: (base.get(k), got.get(k)) for k in set(base) | set(got) if base.get(k) != got.get(k)}
+        return bool(diff), {'definitions that differ from the ones declared on a host where nothing is found': {k: v for k, v in list(diff.items())[:3]}}
+    k = 0
+    for pr in core.explore(fn, max_paths=64, catch=(Exception,)):
+        log.path(pr)
+        k += 1
+        if pr.aborted:
+            continue
+        if pr.error is not None:
+            raise pr.error
+        got = pr.value
+        harness.reachable(log, pr.ctx, 500)
+        zv = {nm: z3.Bool(nm) for nm in asked}
+        harness.discharge(log, pr.ctx, f'{clsn}: the declared parameter definitions (defaults, bounds, units) are the same whatever executables / environment variables the host has',
+                          got == base, zv, concrete, sample=(k == 1))
+    yield log.result()
+
+
+
 def run_names(unit):
     cfg = {'harness': 'name-sets-and-files'}
     log = harness.UnitLog(cfg)
@@ -450,12 +523,16 @@ def units(tier, seed):
     mods = [(m_, c_) for m_, c_ in gx.SOURCE_CLASSES if tier == 'thorough' or c_ in ('AGSWellBores', 'WellBores', 'Reservoir', 'SurfacePlant', 'SBTWellbores')]
     for m_, c_ in mods:
         us.append({'harness': 'class-reader', 'layer': 'module', 'module': m_, 'cls': c_, 'backgrounds': ['only-this-key'], 'slice': None})
+    for m_, c_ in gx.SOURCE_CLASSES:
+        us.append({'harness': 'environment', 'module': m_, 'cls': c_})
     return us
 
 
 def run_unit(unit):
     if unit['harness'] == 'names':
         yield from run_names(unit)
+    elif unit['harness'] == 'environment':
+        yield from run_environment(unit)
     elif unit['harness'] == 'class-reader':
         yield from c07.run_unit({k: v for k, v in unit.items() if k != 'harness'})
     elif unit['harness'] == 'client-extracts':
